@@ -6,7 +6,7 @@
 (* reopen.  A deviation replaces the contract action only in KF mode.              *)
 EXTENDS DurableFile, TLC
 
-KnownIds == {"C19-KF1", "C19-KF2", "C19-KF3", "C19-KF4", "C19-KF5", "C19-KF6"}
+KnownIds == {"C19-KF3", "C19-KF5", "C19-KF6"}
 
 MixKinds == {"mixture", "rollback", "hdr_new_data_old", "data_new_hdr_old"}
 Damaged == MixKinds \cup {"truncate"}
